@@ -13,6 +13,7 @@ var specs = map[string]func(tier string) *Spec{}
 func main() {
 	pool.Register("seqmc", worker)
 	pool.Register("c04", c04Worker)
+	pool.Register("c03pipe", pipeWorker)
 	pool.WorkerMain()
 	if len(os.Args) < 2 {
 		fmt.Fprintln(os.Stderr, "usage: seqmc <property> | seqmc replay <file>")
@@ -24,6 +25,9 @@ func main() {
 	if os.Args[1] == "bench" {
 		bench()
 		return
+	}
+	if os.Args[1] == "C03" {
+		os.Exit(runC03())
 	}
 	if os.Args[1] == "C04" {
 		os.Exit(runC04())
